@@ -197,8 +197,31 @@ class Gen:
         if r.random() < 0.12:
             self.feat.add("called-lambda-zero-parameters")
             return ast.Call(func=lam([], self.expr(env, want, d - 1)), args=[], keywords=[])
-        k = r.randint(1, 2)
         pool = [NUM, NUM] + [s for s in env.values() if s[0] in ("obj", "seq")]
+        if r.random() < 0.1 and d >= 2:
+            # a lambda MADE by a called lambda and then called - by position, by keyword, or through a keyword-only parameter:
+            # (lambda m: (lambda p: .. p .. m ..))(<uses outer names>)(p=<value>), p preferably a name that is live outside
+            self.feat.add("called-lambda-made-by-called-lambda")
+            s1 = r.choice(pool)
+            m = self.fresh(env)
+            live = sorted(env)
+            p = r.choice(live) if live and r.random() < 0.7 else self.fresh(env)
+            while p == m:
+                p = p + "_"
+            inner = dict(env)
+            inner[m] = s1
+            inner[p] = NUM
+            made = lam([p], self.expr(inner, want, d - 2))
+            form = r.choice(["positional", "keyword", "keyword", "kwonly"])
+            if form == "kwonly":
+                made.args.kwonlyargs, made.args.kw_defaults, made.args.args = made.args.args, [None], []
+            maker = ast.Call(func=lam([m], made), args=[self.expr(env, s1, d - 2)], keywords=[])
+            val = self.expr(env, NUM, d - 2)
+            self.feat.add("made-lambda-called-by-" + form)
+            if form == "positional":
+                return ast.Call(func=maker, args=[val], keywords=[])
+            return ast.Call(func=maker, args=[], keywords=[ast.keyword(arg=p, value=val)])
+        k = r.randint(1, 2)
         shapes = [r.choice(pool) for _ in range(k)]
         params, inner = [], dict(env)
         for s in shapes:
